@@ -55,7 +55,7 @@ MethodBag == <<"GET", "GET", "GET", "GET", "HEAD", "HEAD", "POST", "POST", "POST
 BehBag == <<"val", "val", "val", "val", "empty", "nil", "nil", "nl", "err", "status", "status", "wrap">>
 CodeBag == <<400, 403, 404, 409, 418, 429, 500, 503>>
 AcceptBag == <<"", "", "", "", "json", "cbor", "msgpack", "yaml", "wild", "multi", "bad">>
-WriteBodies == <<"none", "small", "small", "small", "mid", "chunksmall", "chunksmall", "overdecl", "overchunk">>
+WriteBodies == <<"none", "small", "small", "small", "small", "mid", "chunksmall", "chunksmall", "overdecl", "overchunk", "under">>
 WriteBodiesLight == <<"none", "small", "small", "small", "mid", "chunksmall", "chunksmall", "overdecl">>
 
 RndReq(s, n) ==
@@ -74,6 +74,15 @@ RndReq(s, n) ==
         beh |-> Bag(BehBag, n + 9), code |-> Bag(CodeBag, n + 10),
         hdr |-> Rnd(1..3, n + 11) = 1, ct |-> Rnd(1..5, n + 12) = 1, tp |-> tgt]
 
+\* a request that arrives while the module is starting: aimed at an endpoint of the module if there is one
+RndReqStart(s, n) ==
+    LET q == RndReq(s, n)
+        M == {e \in s.regs : e.mod = 1 /\ e.rd \in {-1, 1} /\ e.wr \in {-1, 1}}
+    IN IF M = {} THEN q
+       ELSE LET t == Rnd(M, n + 77).p
+            IN [q EXCEPT !.segs = Fill(Tpl[t], n + 80), !.tp = t,
+                         !.body = IF @ \in {"overdecl", "overchunk", "under"} THEN "small" ELSE @]
+
 FamBag(s) == IF Cardinality(s.regs) < 3
              THEN <<"reg", "reg", "reg", "reg", "reg", "reg", "req", "req", "list", "mod", "race">>
              ELSE <<"reg", "reg", "req", "req", "req", "req", "req", "req", "req", "req", "req", "req", "req", "req",
@@ -84,7 +93,9 @@ RndOp(s, n) ==
       [] f = "req"    -> Op("req", NullD, RndReq(s, n + 200), FALSE, "", 0, <<>>)
       [] f = "list"   -> Op("list", NullD, NullQ, FALSE, Bag(<<"http", "export">>, n + 1), 0, <<>>)
       [] f = "bypath" -> Op("bypath", NullD, NullQ, FALSE, "", Rnd(1..NPaths, n + 2), <<>>)
-      [] f = "mod"    -> Op("mod", NullD, NullQ, ~s.online, "", 0, <<>>)
+      [] f = "mod"    -> IF ~s.online /\ Rnd(1..4, n + 6) = 1
+                         THEN Op("reqstart", NullD, RndReqStart(s, n + 400), FALSE, "", 0, <<>>)
+                         ELSE Op("mod", NullD, NullQ, ~s.online, "", 0, <<>>)
       [] f = "race"   -> LET k == Rnd(2..4, n + 3)
                              same == Rnd(1..NPaths, n + 4)
                          IN Op("race", NullD, NullQ, FALSE, "", 0,
